@@ -612,8 +612,8 @@ def m_coll_new(I, state, frame, bi, t, args, span):
     return [(coll(), state)]
 
 
-def coll_add(I, state, a, elem, k=None):
-    """weakly add elem to the collection behind reference a (if it is a local summary)"""
+def coll_add(I, state, a, elem, k=None, ne=False):
+    """weakly add elem to the collection behind reference a (if it is a local summary); ne: an element is certainly added"""
     if a[0] != "ref":
         return
     cur = av_get(I.load_root(state, a[1]), a[2], I.uni)
@@ -626,7 +626,7 @@ def coll_add(I, state, a, elem, k=None):
         if is_hist_copy(k, elem):
             # the explicit-loop form of clone().drain().filter().collect(): a pair of the input history copied unchanged
             tags = tags | frozenset(["history_filtered", "history_copy"])
-        new = ("coll", join(cur[1], e2), join(cur[2], k) if k is not None else cur[2], tags)
+        new = ("coll", join(cur[1], e2), join(cur[2], k) if k is not None else cur[2], tags | (frozenset(["ne"]) if ne else frozenset()))
         root_av = I.load_root(state, a[1])
         I.store_root(state, a[1], av_set(root_av, a[2], new, I.uni) if a[2] else new)
 
@@ -719,7 +719,7 @@ def m_push(I, state, frame, bi, t, args, span):
                       dict(fn=frame.body.name, bb=bi, span=span, container=a[1] if a[0] == "ref" else None,
                            key=(x[1], x[2]) if x[0] == "key" else (None, frozenset()), elem=x if x[0] != "key" else None,
                            stack=frame.stack))
-        coll_add(I, state, a, x)
+        coll_add(I, state, a, x, ne=True)
     return [(TOP, state)]
 
 
@@ -757,7 +757,8 @@ def m_extend(I, state, frame, bi, t, args, span):
               dict(fn=frame.body.name, bb=bi, span=span, target=("self", sf) if sf is not None else ("local",),
                    elem=elem, src=args[1] if args[1][0] == "ref" else None, stack=frame.stack))
     if sf is None and elem is not None:
-        coll_add(I, state, a, elem)
+        ne_src = (src[0] == "iter" and tmpl_nonempty(src[1])) or (src[0] == "coll" and "ne" in src[3])
+        coll_add(I, state, a, elem, ne=ne_src)
     return [(TOP, state)]
 
 
@@ -905,9 +906,10 @@ def m_box_into_vec(I, state, frame, bi, t, args, span):
     v = deref(I, state, args[0])
     elem = None
     if v[0] == "adt" and v[1] == "array":
-        for f in adt_variants(v)[0]:
+        fs_ = adt_variants(v)[0]
+        for f in fs_:
             elem = join(elem, anonymise(f))
-        return [(coll(elem), state)]
+        return [(coll(elem, tags=(["ne"] if fs_ else [])), state)]
     return [(coll(TOP), state)]
 
 
@@ -917,12 +919,28 @@ def m_vec_pop(I, state, frame, bi, t, args, span):
     v = deref(I, state, args[0])
     res = [(adt(OPTION, {0: ()}), state.copy())]
     if v[0] == "coll":
+        removing = any(frame_callee_endswith(t, x) for x in ("::pop", "::pop_front", "::pop_back"))
+        if "ne" in v[3] and v[1] is not None:
+            res = []          # known to be non-empty: the step yields
         if v[1] is not None:
-            for (e, st) in instantiate(I, state.copy(), frame, bi, ("av", v[1]), span):
+            st0 = state.copy()
+            a = args[0]
+            if removing and "ne" in v[3] and a[0] == "ref":
+                # after taking one element out nothing is known about emptiness any more
+                cur = I.load_root(st0, a[1])
+                nv = ("coll", v[1], v[2], v[3] - {"ne"})
+                I.store_root(st0, a[1], av_set(cur, a[2], nv, I.uni) if a[2] else nv)
+            for (e, st) in instantiate(I, st0, frame, bi, ("av", v[1]), span):
                 res.append((some(e), st))
     else:
         res.append((some(TOP), state.copy()))
     return res
+
+
+def frame_callee_endswith(t, suffix):
+    from mir import callee_of
+    c = callee_of(t)
+    return bool(c) and ((c[1] or c[0]) or "").split("<")[0].endswith(suffix) or bool(c) and (c[0] or "").endswith(suffix)
 
 
 @model("std::iter::Iterator::all", "std::iter::Iterator::any")
